@@ -1,0 +1,35 @@
+//go:build verif
+// +build verif
+
+package media
+
+import "sync/atomic"
+
+// Inspectors for the verification harness (build tag verif only).
+
+// VerifConsumption is a snapshot of one registered consumption.
+type VerifConsumption struct {
+	CID        CID
+	QueueLen   int
+	Closed     bool
+	Discarding bool
+}
+
+func verifSnap(cs *consumptions) []VerifConsumption {
+	out := []VerifConsumption{}
+	cs.Range(func(key, value interface{}) bool {
+		c := value.(*consumption)
+		out = append(out, VerifConsumption{CID: c.cid, QueueLen: c.recvQueue.Len(), Closed: c.closed, Discarding: c.discarding})
+		return true
+	})
+	return out
+}
+
+// VerifTables returns the registered consumptions and raw counters of both tables.
+func (s *Stream) VerifTables() (rtp, flv []VerifConsumption, rtpCount, flvCount int32) {
+	return verifSnap(&s.consumptions), verifSnap(&s.flvConsumptions),
+		atomic.LoadInt32(&s.consumptions.count), atomic.LoadInt32(&s.flvConsumptions.count)
+}
+
+// VerifStatus returns the raw stream status.
+func (s *Stream) VerifStatus() int32 { return atomic.LoadInt32(&s.status) }
